@@ -6,12 +6,15 @@ import (
 	"encoding/json"
 	"flag"
 	"fmt"
+	badgerstore "github.com/vipnode/vipnode/v2/pool/store/badger"
 	"os"
 	"runtime"
 	"sort"
+	"strconv"
 	"strings"
 	"testing"
 	"time"
+	"verif/sim/seams"
 
 	"verif/sim/kernel"
 	"verif/sim/minimise"
@@ -112,6 +115,20 @@ func Main(t *testing.T) {
 		}
 		writeJSON(*fOut, ms)
 		return
+	}
+	if *fMode == "openprobe" {
+		// helper for crash images that may not open: badger leaves its background goroutines behind when Open
+		// fails, which a simulated run cannot survive - the attempt is made in a process of its own
+		// (-trace = database directory, -tier = memtable size knob)
+		mb, _ := strconv.Atoi(*fTier)
+		st, err := badgerstore.Open(seams.BadgerOptions(*fTrace, mb))
+		if err != nil {
+			fmt.Printf("OPEN-ERR: %v\n", err)
+			os.Exit(0)
+		}
+		st.Close()
+		fmt.Println("OPEN-OK")
+		os.Exit(0)
 	}
 	sc := scen.Get(*fScenario)
 	if sc == nil {
